@@ -435,9 +435,7 @@ func raceSignature(txt string) (sig string, ours bool) {
 					}
 					fn = strings.TrimPrefix(fn, "github.com/goghcrow/yae/")
 					fn = strings.TrimPrefix(fn, "github.com/goghcrow/yae.")
-					if k := strings.IndexByte(fn, '('); k > 0 {
-						fn = fn[:k]
-					}
+					fn = strings.TrimSuffix(fn, "()")
 					frame = loc + ":" + fn
 				}
 				j += 2
